@@ -129,3 +129,24 @@ check("C19", "model_checking",
       "Request action and compares every observable after every request; random sequences up to 60 requests / train steps up to 10.",
       "trusted: TLC; scripted predict hook; train() counted by wrapping the public method; SurrogateModelSMT not exercised",
       "TLC exhaustive model + every TLC-emitted request sequence replayed + TLC trace validation with the model's own action", "DESIGN.md 5/C19")
+
+check("C12", "exploration",
+      "DesignsOps.tla states the defining structures as predicates over integer matrices: Latin(D) (every column of stratum indices is a "
+      "permutation of 0..N-1), HaltonOK (point i, parameter j = digit-reversal radical inverse of i in the j-th prime, as exact rationals), "
+      "GridOK (full product of k levels), count/box for the random generator. Designs.tla lets TLC check the predicates on reference "
+      "constructions (Latin hypercubes from all permutation pairs N<=4(5), radical inverse = summation definition for i<=300(2000) in six "
+      "bases, prime table) and on broken variants. The real generators are run for N in 1..200, d in 1..12, nine box classes and seeds; "
+      "each output is projected with exact rational arithmetic and judged by TLC (DesignsTrace). TLA+ supplies the precise predicate and "
+      "decides every observation; there is no state space to explore, hence level exploration.",
+      "trusted: TLC; exact-rational projection of unit coordinates; statistical independence of columns not examined",
+      "TLC-evaluated structural predicates (checked on reference constructions) over projected real designs", "DESIGN.md 5/C12")
+check("C13", "exploration",
+      "DesignsOps.tla: FullFactOK (count, duplicate-free, in range = every combination once), PBOK (two levels, next multiple of four runs, "
+      "balanced, pairwise orthogonal columns), BBOK (each +/- corner of each factor pair once, others at mid-level, one centre run), GSDOK "
+      "(duplicate-free subsets, pairwise disjoint, complete when all r complementary designs are requested). Designs.tla: TLC checks the "
+      "predicates on cyclic PB8 / PB12, textbook BB3, counting full factorials, a GSD split, and rejects corrupted variants. The real "
+      "generators and doe functions are run for PB 1..23 (24, 27 must raise), BB 3..8 (10), full factorials (centre / level lists 1..5 x "
+      "1..5 factors), GSD over 14 level lists x reductions 2..4 x all complementary counts, also after another design was generated from "
+      "the same parameter list; TLC judges every projected design. Exhaustive over the stated configuration ranges; no state space.",
+      "trusted: TLC; exact matching of coordinates against supplied levels / bounds / mid-points",
+      "TLC-evaluated structural predicates (checked on reference constructions) over projected real designs", "DESIGN.md 5/C13")
